@@ -753,6 +753,26 @@ func (g *Gen) genC15() {
 			items[k] = nv[0] + "=\"" + r.Pick("Call-Me", "aB", "xY.z", "Q") + r.Alnum(0, 4) + "\""
 			p.Params = strings.Join(items, ";")
 		}
+		if p.HasParams && p.Params != "" && r.P(10) {
+			// '&' is an ordinary byte inside a URI PARAMETER (it only separates URI headers)
+			items := strings.Split(p.Params, ";")
+			k := r.N(len(items))
+			nv := strings.SplitN(items[k], "=", 2)
+			items[k] = nv[0] + "=" + r.Alnum(1, 3) + "&" + r.Alnum(1, 3)
+			p.Params = strings.Join(items, ";")
+		}
+		if r.P(6) { // long lists: 17 … 40 URI headers / parameters (more than any small fixed-size scratch array)
+			n := 17 + r.N(24)
+			var items []string
+			for k := 0; k < n; k++ {
+				items = append(items, fmt.Sprintf("x-h%d=%s", k, r.Alnum(1, 4)))
+			}
+			if r.P(50) {
+				p.HasHeaders, p.Headers = true, strings.Join(items, "&")
+			} else {
+				p.HasParams, p.Params = true, strings.Join(items, ";")
+			}
+		}
 		a := p.String()
 		q := *p
 		kind := "equivalent-variant"
